@@ -193,6 +193,19 @@ def r3_guards(ctx, P):
             ok = ok and "SetLenOnDrop" in gt
         ctx.inst(R, b.path, ok, "unwinding out of the predicate drops the SetLenOnDrop guard (length restored to a valid prefix)" if ok else
                  "the predicate is not covered by the length guard", where=b.where(), site="retain guard")
+        # the guard's cursor still points at the character under test while the predicate runs: it is advanced only
+        # after the predicate returned (a panicking predicate must leave [kept prefix][untouched rest], both whole characters)
+        idx_stores = [x for x, st in b.assigns() if st["p"]["p"] and any(isinstance(pe, dict) and pe.get("n") == "idx" for pe in st["p"]["p"])
+                      and b.can_reach(x, x, cleanup=False)]
+        oki = bool(preds) and bool(idx_stores) and all(any(b.dominates(ps, x) for ps, _ in preds) for x in idx_stores)
+        if oki:
+            # and not between the decoding of the character and the predicate: no idx store can reach the predicate without
+            # passing the loop head again, i.e. every idx store is *after* the predicate in its iteration
+            oki = all(not b.dominates(x, ps) for x in idx_stores for ps, _ in preds)
+        ctx.inst(R, b.path, oki, "guard.idx is advanced only after the predicate returned" if oki else
+                 "guard.idx is advanced before the predicate is called: if the predicate panics after an earlier character was removed, "
+                 "the guard's drop moves the tail from the wrong offset and the string keeps stale continuation bytes (invalid UTF-8)",
+                 where=b.where(), site="retain cursor after predicate")
     for path in ("bump_box::BumpBox::<'a, str>::drain",):
         bs = [b for b in P.fn_bodies() if b.path == path]
         if ctx.need(len(bs) == 1, R, path):
